@@ -195,4 +195,29 @@ impl TopicAliasSend {
     pub fn max(&self) -> TopicAliasType {
         self.max_alias
     }
+
+    /// Verification hook: (alias -> topic in LRU order, per-topic alias lists sorted by topic,
+    /// free alias intervals).
+    #[cfg(mqtt_protocol_core_verif)]
+    #[allow(clippy::type_complexity)]
+    pub fn verif_dump(
+        &self,
+    ) -> (
+        Vec<(TopicAliasType, String)>,
+        Vec<(String, Vec<TopicAliasType>)>,
+        Vec<(TopicAliasType, TopicAliasType)>,
+    ) {
+        let a2t = self
+            .alias_to_topic
+            .iter()
+            .map(|(a, t)| (*a, t.clone()))
+            .collect();
+        let mut t2a: Vec<(String, Vec<TopicAliasType>)> = self
+            .topic_to_aliases
+            .iter()
+            .map(|(t, v)| (t.clone(), v.clone()))
+            .collect();
+        t2a.sort();
+        (a2t, t2a, self.value_allocator.verif_intervals())
+    }
 }
